@@ -14,7 +14,7 @@ def ob_logdet_fwd_all(spec_name):
 
 def obligations(tier, seed):
     tasks = []
-    for nm in (c01x.COMB_QUICK if tier == "quick" else c01x.COMB_THOROUGH):
+    for nm in (c01x.COMB_QUICK if tier == "quick" else [n for n in c01x.COMB_THOROUGH if n != "coupling3d2"]):
         tasks.append(dict(name=nm, func="c02:ob_logdet_all", kwargs=dict(spec_name=nm), cost=3.0 if nm.startswith("coupling") else 1.0))
     # BlockAutoregressiveNetwork: the log-space accumulation of block Jacobians (logmatmulexp with -inf off-diagonal entries) against the
     # autodiff Jacobian, all weights symbolic under the C09/C11 invariant (larger blocks / depth 2 / conditional variants do not discharge)
